@@ -384,6 +384,13 @@ add('k1_loops', 'k3_insert', 'k3_insert_h::<u32, 16, 4>()', props=['C01', 'C05']
 add('k1_loops', 'k3_remove', 'k3_remove_h()', props=['C01', 'C05'], tier='t', kind='bounded', bound=B3, attrs=['#[kani::unwind(20)]'], flags=['nolc'], cost=60, macro='p')
 
 
+# C03 / C05 / C06 obligations (ownership accounting, recorder preconditions against the current region, panic-view
+# invariant at every call-out) are generated inside the recorders, i.e. by EVERY operation-contract harness: each K2
+# harness of the default build serves all three, whatever property it was written for
+for h in HS:
+    if h.mod.startswith('k2_') and h.kind != 'finding':
+        h.props |= {'C03', 'C05', 'C06'}
+
 # C10 "len <= capacity always": every operation contract asserts len' <= capacity'; one representative per growing operation serves C10
 for h in HS:
     if h.name in ('insert_raw_e8', 'splice_erased_e8_k2', 'insert_from_remove_e8', 'insert_lazy_clone_e8', 'clone_nodrop_e8', 'clone_fixed_e8'):
